@@ -1290,7 +1290,7 @@ def _run_sweeps(bd, orc, fit_name, thorough, function=None):
     pending = _PENDING_TRIAGE.get(fit_name, ())
     for ic, case in _sweep_cases(thorough, fit_name):
         if ic in pending:
-            if False:  # pending triage: the classes listed in _PENDING_TRIAGE (genuine defects on the unchanged tree)
+            if True:   # repaired in /repo 7c4854cc, b503be68, 1522d760 (was pending triage): the classes listed in _PENDING_TRIAGE
                 bd.check(orc, case, ic, function=function or fit_name)
             continue
         bd.check(orc, case, ic, function=function or fit_name)
@@ -1341,8 +1341,6 @@ def _restriction_sweeps(thorough, fit_name):
                 ('units', dict(bscale=1e6, tscale=1e-6, pidx=[5, 2, 0, 3, 1]))]
     out = []
     for i, (ic, v) in enumerate(variants):
-        if ic == 'units' and fit_name == 'fit_regress_nn':
-            continue        # (large numbers: the fitter does not return -- pending triage, see _PENDING_TRIAGE)
         for j, method in enumerate(METHODS):
             if (j - i) % 4 and (not thorough or (slow and (j - i) % 2)):
                 continue
